@@ -85,7 +85,7 @@ func (g *c16gen) boolNode(d, maxWidth int) *m.Node {
 func genC16(t *rapid.T) C16Case {
 	g := &c16gen{t: t}
 	width := rapid.IntRange(2, 12).Draw(t, "rootwidth")
-	if rapid.IntRange(0, 2).Draw(t, "wide") == 0 {
+	if rapid.Bool().Draw(t, "wide") {
 		width = rapid.IntRange(13, depthMax(40, 60)).Draw(t, "rootwidth2")
 	}
 	var tree *m.Node
